@@ -51,7 +51,9 @@ def coverage_cases(rng):
 
 def corpus_cases(ctx, chunkings=1):
     rng = ctx.rng
-    res = []
+    # regression cases first: the witnesses of REPAIRED findings (the monitors / oracles of the checks must accept them now)
+    W = witnesses()
+    res = [W[k] for k in sorted(W) if k.startswith("c05_F4")]
     for name, ch in sconnp.corpus_streams():
         res.append(sconnp.case(sconnp.ops_of_chunks(ch)))
         for _ in range(chunkings):
